@@ -109,6 +109,13 @@ class RunTest:
                 # One or more caught exceptions, now trigger the test's
                 # reporting method for just one.
                 e = self._exceptions.pop()
+                # An exception that is not an Exception (KeyboardInterrupt,
+                # SystemExit) must not be swallowed because a later stage
+                # raised something else: it decides the outcome.
+                for caught in self._exceptions:
+                    if not isinstance(caught, Exception):
+                        e = caught
+                        break
                 for exc_class, handler in self.handlers:
                     if isinstance(e, exc_class):
                         handler(self.case, self.result, e)
